@@ -574,6 +574,34 @@ def replay(prop, feature, h, solver, target_dir, timeout_s):
     return rdir, reproduced, "tests=%s" % ",".join(tests)
 
 
+def replay_smt(prop, query, mv):
+    """native replay of an Engine-M counterexample (dev and release); reproduced = the test fails"""
+    rdir = os.path.join(ROOT, "replays", prop, re.sub(r"[^A-Za-z0-9_]+", "_", query))
+    shutil.rmtree(rdir, ignore_errors=True)
+    os.makedirs(os.path.join(rdir, "tests"))
+    os.makedirs(os.path.join(rdir, "src"))
+    if not mv.get("replay_rs"):
+        return rdir, False, "no replay template for this query"
+    open(os.path.join(rdir, "Cargo.toml"), "w").write(
+        '[package]\nname = "replay"\nversion = "0.1.0"\nedition = "2021"\n\n[dependencies]\nacpi_tables = { path = "/repo" }\n\n[workspace]\n')
+    open(os.path.join(rdir, "src", "lib.rs"), "w").write("")
+    open(os.path.join(rdir, "tests", "replay.rs"), "w").write(mv["replay_rs"])
+    env = dict(os.environ)
+    env["CARGO_NET_OFFLINE"] = "true"
+    env.pop("RUSTFLAGS", None)
+    outs = []
+    ok = False
+    for prof in ([], ["--release"]):
+        q = subprocess.run(["cargo", "test", "--offline"] + prof, cwd=rdir, env=env, stdout=subprocess.PIPE, stderr=subprocess.STDOUT, text=True)
+        failed = "test result: FAILED" in q.stdout
+        outs.append("### cargo test %s -> %s\n%s" % (" ".join(prof), "REPRODUCED" if failed else "not reproduced", q.stdout[-2000:]))
+        ok = ok or failed
+    open(os.path.join(rdir, "replay.log"), "w").write("\n\n".join(outs))
+    open(os.path.join(rdir, "README"), "w").write("property %s query %s\n%s\nreplay: cd %s && cargo test --offline [--release]\n" % (prop, query, mv["desc"], rdir))
+    shutil.rmtree(os.path.join(rdir, "target"), ignore_errors=True)
+    return rdir, ok, "dev/release run"
+
+
 # ------------------------------------------------------------------ main
 
 def main(argv):
@@ -687,8 +715,13 @@ def main(argv):
     mir_viol = []
     mir_broken = []
     if cfg.get("mir"):
-        import mirsmt
-        mir_report = mirsmt.run(prop, tier, seed, cfg["mir"])
+        # Engine M needs the z3 Python bindings, which live in the tooling venv (python3-vt)
+        pm = subprocess.run(["python3-vt", os.path.join(ROOT, "lib", "mirsmt.py"), prop, "--json"],
+                            stdout=subprocess.PIPE, stderr=subprocess.PIPE, text=True)
+        try:
+            mir_report = json.loads(pm.stdout)
+        except Exception:
+            mir_report = {"queries": [], "violations": [], "broken": ["engine M crashed: " + (pm.stderr or pm.stdout)[-400:]]}
         mir_viol = mir_report.get("violations", [])
         mir_broken = mir_report.get("broken", [])
 
@@ -748,10 +781,15 @@ def main(argv):
                 exit_code = 1
         else:
             mv = fcs[0]
-            log("[%s] SMT counterexample %s: %s" % (prop, n, mv["desc"]))
-            log("VIOLATION property=%s replay=%s" % (prop, mv.get("replay", "")))
-            violations_reported += 1
-            exit_code = 1
+            log("[%s] SMT counterexample %s: %s" % (prop, n, mv["desc"][:300]))
+            path, ok, info = replay_smt(prop, n, mv)
+            if ok:
+                log("VIOLATION property=%s replay=%s" % (prop, path))
+                violations_reported += 1
+                exit_code = 1
+            else:
+                log("[%s] SMT counterexample %s did NOT reproduce natively (%s) -> exit 2" % (prop, n, info))
+                broken.append((n, "SMT counterexample does not replay: " + info))
 
     for n, d in broken:
         log("[%s] INCONCLUSIVE/BROKEN %s: %s" % (prop, n.split("::", 1)[-1], d if isinstance(d, str) else str(d)[:300]))
